@@ -23,7 +23,7 @@ CHECKS = {
 "C06": dict(level="exploration", design="5.2",
   technique="deterministic simulation: seeded scheduler permutes source-set iteration and directory enumeration order (exhaustive for <=4 files), real Project()+correlate() per schedule in forked variants of a cold process, checked against an executable reference model of USE association and for schedule invariance; cold PYTHONHASHSEED runs tie it to the real mechanism",
   text="Seeded search over (generated module graph, file-read schedule): every schedule of every world is compared with an independent reference model of USE association (local conformance per scope + global tables + resolved references) and with every other schedule. Sampling, not proof; exhaustive over file orders only for worlds with <=4 files.",
-  note="worlds also contain USE statements inside module procedures, interface bodies, BLOCK constructs and submodules, shadowing inner USEs, swap/echo/empty rename lists, mixed-case spellings, modules named like intrinsic ones; trusts the ~100-line reference model (fordsim/usemodel.py) and the generator staying inside the quantifier (unique module names, no ambiguous imports, no operator generics); the S1 order seam is a wrapper around ford.fortran_project.find_all_files that only permutes a genuine set return value; forked variants share one cold image"),
+  note="constructor generics (a generic interface named like a type of its module, imported through ONLY/rename) are generated, on the module's default accessibility only; worlds also contain USE statements inside module procedures, interface bodies, BLOCK constructs and submodules, shadowing inner USEs, swap/echo/empty rename lists, mixed-case spellings, modules named like intrinsic ones; trusts the ~100-line reference model (fordsim/usemodel.py) and the generator staying inside the quantifier (unique module names, no ambiguous imports, no operator generics); the S1 order seam is a wrapper around ford.fortran_project.find_all_files that only permutes a genuine set return value; forked variants share one cold image"),
 "C12": dict(level="exploration", design="5.1",
   technique="deterministic simulation: every variant is a cold fully simulated FORD run; the seeded scheduler varies PYTHONHASHSEED, source-set order, directory enumeration order, worker count with SimPool interleavings (real pickle round trip, baton-passed threads), output-directory history (empty/stale/same/regular file) and a simulated clock, one dimension at a time and all at once; oracle = byte-identical output tree and equal outcome vs the reference run; plan-then-world minimisation, twice-cold confirmation, shim-free / heap-pad classification",
   text="Seeded search over (generated multi-file world incl. equal entity names, unknown-module USE sets, submodules, block data, pages, option swarm) x the schedule/history dimensions the statement names. Each evaluation is a complete real run in a fresh interpreter; output trees are compared byte for byte. Sampling, not proof; file-order permutations exhaustive only for <=3 (quick) / <=4 (thorough) files.",
@@ -31,11 +31,11 @@ CHECKS = {
 "C19": dict(level="fault_enumeration", design="5.3",
   technique="deterministic simulation with fault injection: a fault-free cold run numbers every file-system operation of the run; the run is then repeated with one injected fault (errno menu, torn write, failing child, kill -9) at a stratified sample of operation indices (quick) or at every index (thorough sweeps), plus sampled two-fault plans; oracle = mutating-operation log confined to the allowed roots + before/after content+metadata snapshot of the whole sandbox + refusal-before-first-mutation",
   text="Enumerates single faults over the numbered FS operations of real FORD runs in sandboxes with bystander files, across placements of output_dir/graph_dir (sibling, nested, absolute, .., symlink, pre-existing stale with hostile symlinks, regular file, CLI) incl. six refusal placements, cwd and copy/write options. Complete over operation indices only in the thorough sweep worlds; otherwise stratified by (phase, op kind, path class).",
-  note="faults are addressed by (operation kind, path, occurrence); placements are stratified so that each occurs in every quick run; pre-existing content of a graph directory must survive; crash = process kill, not power loss; writes by child processes are judged by the snapshot only; running as root so real EACCES never occurs (simulated only); allowed roots are computed from the generated placement, independently of FORD"),
+  note="page worlds hold a symlinked asset named like a sibling page's output (absolute target outside the output directory); faults are addressed by (operation kind, path, occurrence); placements are stratified so that each occurs in every quick run; pre-existing content of a graph directory must survive; crash = process kill, not power loss; writes by child processes are judged by the snapshot only; running as root so real EACCES never occurs (simulated only); allowed roots are computed from the generated placement, independently of FORD"),
 "C20": dict(level="fault_enumeration", design="5.4",
   technique="deterministic simulation with storage-fault injection: valid generated world + 1-3 files damaged by seeded truncation (statement/byte), splice, lost block, bit flips, undecodable bytes, empty/binary/directory, unbalanced END, misplaced CONTAINS, malformed-construct grammar, or a simulated errno at open(); placed first/between/last in the read order; real Project()+correlate()+markdown() per variant in forked children of one cold process under a sys.monitoring step budget and a wall watchdog; differential oracle against the same world without the damaged files; sampled cold full-HTML runs",
   text="Enumerates corruption kinds x positions over generated worlds; for each, the canonical dump (entities, attributes, docs, resolved references, page stems, per-kind lists) of every valid file must equal the dump with the damaged files absent, rejected files must be named in the diagnostics, the parse must finish within a deterministic step budget, and nothing may abort the run while reading. Crashes in correlate caused by a damaged file FORD's parser *accepted* are tallied as out of scope (premise: 'cannot be parsed').",
-  note="also: damaged copies of the valid files, files that must be rejected (unbalanced END), reading faults (dangling symlink, missing/undecodable/cyclic include, errno at the 1st/2nd open), 70 rejected files under RLIMIT_NOFILE=48, FORD's example sources as a valid world; step budget counts line events in FORD's reader/parser/project modules only; wall watchdog max(10 s, 200 x fault-free); input lines <= 2 KB; damaged files use an identifier prefix the valid world never uses"),
+  note="every world has a valid file whose INCLUDE is found through the `include` setting and one damaged file in a directory holding an equally named include file; also: damaged copies of the valid files, files that must be rejected (unbalanced END), reading faults (dangling symlink, missing/undecodable/cyclic include, errno at the 1st/2nd open), 70 rejected files under RLIMIT_NOFILE=48, FORD's example sources as a valid world; step budget counts line events in FORD's reader/parser/project modules only; wall watchdog max(10 s, 200 x fault-free); input lines <= 2 KB; damaged files use an identifier prefix the valid world never uses"),
 "C17": dict(level="exploration", design="5.6",
   technique="deterministic simulation (narrow): seeded permutation of every listdir/scandir result and torn page files (title-loss: emptied, cut inside/before the metadata header, damaged key, leading blank line) on leaf pages, sub-directory index.md and first/last siblings; real get_page_tree() per variant in forked children of a cold process vs a reference model of the page tree; sampled cold full runs check pages 1:1, copied files/copy_subdir and every link and |page|/|media|/|url| alias from every depth",
   text="Seeded search over generated page directories (depth <= 4, index present/absent/title-less, hidden and ~ files, ordered_subpage valid/partial/duplicate/naming missing entries, copy_subdir, other files) x enumeration orders x torn-file sets; the real tree must equal the model under every order and every torn file must be reported without losing siblings. Narrow claim: most of C17 is a function of the directory tree; simulation contributes enumeration order and torn files.",
